@@ -103,19 +103,39 @@ def squareadd32 (a : Reg) (off : Nat) (s : Reg) : List Instr :=
 def squareaddcarry32 (a : Reg) (off : Nat) (s c : Reg) : List Instr :=
   sqpart1 a s ++ [.lslsImm .r5 .r5 15, .addsReg .r6 .r6 c, .alu .adcs .r5 .r5, .ldrImm .r7 .sp off, .addsReg .r6 .r6 .r7] ++ part3 s
 
-def sqFirst (i : Nat) : List Instr :=
-  [.ldrImm .r3 .r1 0] ++ muladd32 .r2 .r3 (4 * i) .r3 ++ [.strImm .r6 .sp (4 * i)]
-def sqMid (i j : Nat) : List Instr :=
-  [.ldrImm (dreg j) .r1 (4 * j)] ++ muladdcarry32 .r2 (dreg j) (4 * (i + j)) (dreg j) (creg j) ++ [.strImm .r6 .sp (4 * (i + j))]
-def sqLast (i j : Nat) : List Instr :=
-  [.ldrImm (dreg j) .r1 (4 * j)] ++ mulcarry32 .r2 (dreg j) (dreg j) (creg j) ++ [.strImm .r6 .sp (4 * (i + j))]
-/-- row `i ≥ 2` of the triangle -/
-def sqRow (i : Nat) : List Instr :=
-  [.ldrImm .r2 .r1 (4 * i)] ++ sqFirst i ++ ((List.range (i - 2)).map fun j => sqMid i (j + 1)).flatten ++ sqLast i (i - 1)
-  ++ [.strImm (dreg (i - 1)) .sp (8 * i)]
-def square768part1 : List Instr :=
+/-- first cell of a triangle row: `ldr r3, [r1, #0]; muladd32 r2, r3, off, r3; str r6, [sp, #off]` -/
+def sqFirst (off : Nat) : List Instr :=
+  [.ldrImm .r3 .r1 0] ++ muladd32 .r2 .r3 off .r3 ++ [.strImm .r6 .sp off]
+/-- last cell of a triangle row (the word at `off` has not been written yet): `ldr d, [r1, #jo]; mulcarry32 r2, d, d, c; str r6, [sp, #off]` -/
+def sqLastA (jo off : Nat) : List Instr :=
+  [.ldrImm .r0 .r1 jo] ++ mulcarry32 .r2 .r0 .r0 .r3 ++ [.strImm .r6 .sp off]
+def sqLastB (jo off : Nat) : List Instr :=
+  [.ldrImm .r3 .r1 jo] ++ mulcarry32 .r2 .r3 .r3 .r0 ++ [.strImm .r6 .sp off]
+/-! row `i` of the triangle (`i = 2..11`): `tmp[i .. 2i] := a[i]·a[0..i) + tmp[i .. 2i−2]`; the middle cells are those of a Montgomery row -/
+def sqRow2 : List Instr :=
+  [.ldrImm .r2 .r1 8] ++ sqFirst 8 ++ sqLastA 4 12 ++ [.strImm .r0 .sp 16]
+def sqRow3 : List Instr :=
+  [.ldrImm .r2 .r1 12] ++ sqFirst 12 ++ montCellA 4 16 ++ sqLastB 8 20 ++ [.strImm .r3 .sp 24]
+def sqRow4 : List Instr :=
+  [.ldrImm .r2 .r1 16] ++ sqFirst 16 ++ montCellA 4 20 ++ montCellB 8 24 ++ sqLastA 12 28 ++ [.strImm .r0 .sp 32]
+def sqRow5 : List Instr :=
+  [.ldrImm .r2 .r1 20] ++ sqFirst 20 ++ montCellA 4 24 ++ montCellB 8 28 ++ montCellA 12 32 ++ sqLastB 16 36 ++ [.strImm .r3 .sp 40]
+def sqRow6 : List Instr :=
+  [.ldrImm .r2 .r1 24] ++ sqFirst 24 ++ montCellA 4 28 ++ montCellB 8 32 ++ montCellA 12 36 ++ montCellB 16 40 ++ sqLastA 20 44 ++ [.strImm .r0 .sp 48]
+def sqRow7 : List Instr :=
+  [.ldrImm .r2 .r1 28] ++ sqFirst 28 ++ montCellA 4 32 ++ montCellB 8 36 ++ montCellA 12 40 ++ montCellB 16 44 ++ montCellA 20 48 ++ sqLastB 24 52 ++ [.strImm .r3 .sp 56]
+def sqRow8 : List Instr :=
+  [.ldrImm .r2 .r1 32] ++ sqFirst 32 ++ montCellA 4 36 ++ montCellB 8 40 ++ montCellA 12 44 ++ montCellB 16 48 ++ montCellA 20 52 ++ montCellB 24 56 ++ sqLastA 28 60 ++ [.strImm .r0 .sp 64]
+def sqRow9 : List Instr :=
+  [.ldrImm .r2 .r1 36] ++ sqFirst 36 ++ montCellA 4 40 ++ montCellB 8 44 ++ montCellA 12 48 ++ montCellB 16 52 ++ montCellA 20 56 ++ montCellB 24 60 ++ montCellA 28 64 ++ sqLastB 32 68 ++ [.strImm .r3 .sp 72]
+def sqRow10 : List Instr :=
+  [.ldrImm .r2 .r1 40] ++ sqFirst 40 ++ montCellA 4 44 ++ montCellB 8 48 ++ montCellA 12 52 ++ montCellB 16 56 ++ montCellA 20 60 ++ montCellB 24 64 ++ montCellA 28 68 ++ montCellB 32 72 ++ sqLastA 36 76 ++ [.strImm .r0 .sp 80]
+def sqRow11 : List Instr :=
+  [.ldrImm .r2 .r1 44] ++ sqFirst 44 ++ montCellA 4 48 ++ montCellB 8 52 ++ montCellA 12 56 ++ montCellB 16 60 ++ montCellA 20 64 ++ montCellB 24 68 ++ montCellA 28 72 ++ montCellB 32 76 ++ montCellA 36 80 ++ sqLastB 40 84 ++ [.strImm .r3 .sp 88]
+def sqRow1 : List Instr :=
   [.ldrImm .r2 .r1 4, .ldrImm .r3 .r1 0] ++ multiply32 .r2 .r3 .r3 ++ [.strImm .r6 .sp 4, .strImm .r3 .sp 8]
-  ++ ((List.range 10).map fun i => sqRow (i + 2)).flatten
+def square768part1 : List Instr :=
+  sqRow1 ++ sqRow2 ++ sqRow3 ++ sqRow4 ++ sqRow5 ++ sqRow6 ++ sqRow7 ++ sqRow8 ++ sqRow9 ++ sqRow10 ++ sqRow11
 def adc6 : List Instr := [.alu .adcs .r2 .r2, .alu .adcs .r3 .r3, .alu .adcs .r4 .r4, .alu .adcs .r5 .r5, .alu .adcs .r6 .r6, .alu .adcs .r7 .r7]
 def square768part2 : List Instr :=
   [.addSpImm .r0 4, .movHi .r1 .sp, .ldm .r0 [.r3, .r4, .r5, .r6, .r7], .alu .eors .r2 .r2, .addsReg .r3 .r3 .r3,
@@ -126,10 +146,13 @@ def square768part2 : List Instr :=
       .alu .eors .r7 .r7, .alu .adcs .r7 .r7, .stm .r1 [.r2, .r3, .r4, .r5, .r6, .r7]]
 def sqDiagTail (io : Nat) : List Instr :=
   [.strImm .r6 .sp io, .ldrImm .r6 .sp (io + 4), .addsReg .r6 .r6 .r2, .strImm .r6 .sp (io + 4), .alu .eors .r0 .r0, .alu .adcs .r0 .r0]
-def sqDiag (i : Nat) : List Instr :=
-  [.ldrImm .r2 .r1 (4 * i)] ++ squareaddcarry32 .r2 (8 * i) .r2 .r0 ++ sqDiagTail (8 * i)
+/-- `squarediagonaliteration i` with `ao = 4i`, `io = 8i` -/
+def sqDiag (ao io : Nat) : List Instr :=
+  [.ldrImm .r2 .r1 ao] ++ squareaddcarry32 .r2 io .r2 .r0 ++ sqDiagTail io
+def sqDiag0 : List Instr := [.ldrImm .r2 .r1 0] ++ squareadd32 .r2 0 .r2 ++ sqDiagTail 0
 def square768part3 : List Instr :=
-  [.ldrImm .r2 .r1 0] ++ squareadd32 .r2 0 .r2 ++ sqDiagTail 0 ++ ((List.range 11).map fun i => sqDiag (i + 1)).flatten
+  sqDiag0 ++ sqDiag 4 8 ++ sqDiag 8 16 ++ sqDiag 12 24 ++ sqDiag 16 32 ++ sqDiag 20 40 ++ sqDiag 24 48 ++ sqDiag 28 56 ++ sqDiag 32 64
+  ++ sqDiag 36 72 ++ sqDiag 40 80 ++ sqDiag 44 88
 
 def bigint_768_square : List Instr :=
   [.push [.r4, .r5, .r6, .r7] false, .movHi .r4 .r8, .movHi .r5 .r9, .movHi .r6 .r10, .movHi .r7 .r11, .push [.r4, .r5, .r6, .r7] false,
